@@ -113,19 +113,26 @@ class BuildError(Exception):
     pass
 
 
-def capture_files(files, name, sm=False):
-    """Run the real generate() (library mode) over the enums of `files`; returns list of Cap."""
+def capture_files(files, name, sm=False, gen=False, fresh=False):
+    """Run the real generate() (library mode) over the enums of `files`; returns list of Cap.
+    With gen=True the generated code is kept next to each cap (<id>.gen); cap.gen_path is set."""
     tool = capture_tool(sm)
-    out = cache_dir('caps', repo_hash(), name + ('-sm' if sm else ''))
+    out = cache_dir('caps', repo_hash(), name + ('-sm' if sm else '') + ('-gen' if gen else ''))
     key = file_hash(files) + repo_hash()
-    if not stamp_ok(out, key):
+    if fresh or not stamp_ok(out, key):
         for f in glob.glob(os.path.join(out, '*')):
             os.remove(f)
         lst = os.path.join(out, 'files.lst')
         open(lst, 'w').write('\n'.join(files) + '\n')
-        sh([tool, 'defs', out, '--list', lst])
+        env = dict(ENV, VERIF_WRITE_GEN='1') if gen else ENV
+        sh([tool, 'defs', out, '--list', lst], env=env)
         stamp_write(out, key)
-    return [capmod.parse_cap(p) for p in sorted(glob.glob(os.path.join(out, '*.cap')))]
+    caps = []
+    for p in sorted(glob.glob(os.path.join(out, '*.cap'))):
+        c = capmod.parse_cap(p)
+        c.gen_path = p[:-4] + '.gen'
+        caps.append(c)
+    return caps
 
 
 def repo_corpus_files():
@@ -204,7 +211,13 @@ def build_harness(name, files_dual, files_plain, featuresets, profile='debug'):
         if en in enums:
             raise RuntimeError('duplicate enum name in harness corpus: ' + en)
         enums[en] = (mod, c)
-    disp = []
+    disp = []; dispc = []
+    for en, (mod, c) in sorted(enums.items()):
+        if c.accepted:
+            if c.utf8:
+                dispc.append('        "%s" => match std::str::from_utf8(input) { Ok(s) => count_str::<defs::%s::%s>(s, out), Err(_) => out.push_str("BADUTF8") },' % (en, mod, en))
+            else:
+                dispc.append('        "%s" => count_bytes::<defs::%s::%s>(input, out),' % (en, mod, en))
     for en, (mod, c) in sorted(enums.items()):
         if not c.accepted:
             continue
@@ -214,7 +227,7 @@ def build_harness(name, files_dual, files_plain, featuresets, profile='debug'):
             disp.append('        "%s" => run_bytes::<defs::%s::%s>(input, partial, trace, out),' % (en, mod, en))
     tmpl = open(os.path.join(VERIF, 'tools', 'harness', 'main.rs.tmpl')).read()
     modtxt = 'mod defs {\n' + ''.join('    pub mod %s;\n' % m for m in mods) + '}\n'
-    main = tmpl.replace('//@MODS@', modtxt).replace('//@DISPATCH@', '\n'.join(disp))
+    main = tmpl.replace('//@MODS@', modtxt).replace('//@DISPATCH@', '\n'.join(disp)).replace('//@DISPATCH_COUNT@', '\n'.join(dispc))
     cargo = '''[package]
 name = "verif-harness"
 version = "0.1.0"
